@@ -683,10 +683,10 @@ func (vm *VM) startGoroutine() bool {
 	nvm := create(vm.env)
 	vm.pc++
 	off := vm.fn.Body[vm.pc]
-	copy(nvm.regs.int, vm.regs.int[vm.fp[0]+Addr(off.Op):min(vm.fp[0]+127, vm.st[0])])
-	copy(nvm.regs.float, vm.regs.float[vm.fp[1]+Addr(off.A):min(vm.fp[1]+127, vm.st[1])])
-	copy(nvm.regs.string, vm.regs.string[vm.fp[2]+Addr(off.B):min(vm.fp[2]+127, vm.st[2])])
-	copy(nvm.regs.general, vm.regs.general[vm.fp[3]+Addr(off.C):min(vm.fp[3]+127, vm.st[3])])
+	copy(nvm.regs.int, vm.regs.int[vm.fp[0]+Addr(off.Op):min(vm.fp[0]+128, vm.st[0])])
+	copy(nvm.regs.float, vm.regs.float[vm.fp[1]+Addr(off.A):min(vm.fp[1]+128, vm.st[1])])
+	copy(nvm.regs.string, vm.regs.string[vm.fp[2]+Addr(off.B):min(vm.fp[2]+128, vm.st[2])])
+	copy(nvm.regs.general, vm.regs.general[vm.fp[3]+Addr(off.C):min(vm.fp[3]+128, vm.st[3])])
 	if verifEnabled {
 		verifSpawn(vm, nvm)
 	}
